@@ -3,6 +3,10 @@
 package gi
 
 import (
+	"fmt"
+	"io"
+	"os"
+
 	"github.com/ohler55/slip"
 )
 
@@ -40,7 +44,20 @@ type Run struct {
 func (f *Run) Call(s *slip.Scope, args slip.List, depth int) (result slip.Object) {
 	slip.CheckArgCount(s, depth, f, args, 1, 1)
 	if args[0] != nil {
-		go func() { _ = args[0].Eval(s, depth) }()
+		go func() {
+			// A condition that is not handled inside the routine must not
+			// take the whole interpreter down.
+			defer func() {
+				if rec := recover(); rec != nil {
+					w, _ := s.Get(slip.Symbol("*error-output*")).(io.Writer)
+					if w == nil {
+						w = os.Stderr
+					}
+					_, _ = fmt.Fprintf(w, "## error in routine: %v\n", rec)
+				}
+			}()
+			_ = args[0].Eval(s, depth)
+		}()
 	}
 	return slip.Novalue
 }
